@@ -77,3 +77,8 @@ impl From<&AddressFilter> for crate::rodbus::server::AddressFilter {
 //@fn ffi/rodbus-ffi/src/server.rs | server_update_database | tags=C19 | r24 r10 r10id=1
 //@|    ensures !old(server).map.has(crate::rodbus::UnitId { value: unit_id }) ==> r == Err::<(), ffi::ParamError>(ffi::ParamError::InvalidUnitId),
 //@|        old(server).map.has(crate::rodbus::UnitId { value: unit_id }) ==> r is Ok && transaction.ran(),
+// not under contract (CStr / address text parsing, HashSet glue): guarded against change only
+//@reviewed ffi/rodbus-ffi/src/server.rs | get_socket_addr | tags=C18
+//@reviewed ffi/rodbus-ffi/src/server.rs | parse_address_filter | tags=C16,C18
+//@reviewed ffi/rodbus-ffi/src/server.rs | address_filter_create | tags=C16,C18
+//@reviewed ffi/rodbus-ffi/src/server.rs | address_filter_add | tags=C16,C18
